@@ -11,7 +11,9 @@ def run(ctx):
                 "the histories go on sending / calling through the stale proxies (callRemote and callRemoteOnly with by-reference "
                 "arguments, also from notifyOnDisconnect handlers) and the dead Brokers' tables must stay empty; plus ALL "
                 "interleavings (depth 6 quick / 8 thorough) of re-send, delivery, release and answer around a decref in flight, and "
-                "a reconnection family on real Tubs (tables of the dead Broker pair after reconnection)")
+                "a reconnection family on real Tubs (tables of the dead Broker pair after reconnection); and a Tub talking to itself "
+                "over broker.LoopbackTransport, shut down (5 ways) after every number of eventual-send generations while calls, "
+                "answers and callbacks carrying references are in flight in both directions")
     ctx.assumptions = [
         "CPython collects a proxy on the last `del` (+gc.collect()): DropProxy is an explicit action; modelled, not verified",
         "FIFO byte streams both ways, one queue item per top-level banana object (Broker.send is wrapped on the two instances "
@@ -25,6 +27,8 @@ def run(ctx):
     results = R.check_refs(ctx, "C09", "resend-races-release")
     from harness import c08_impl
     c08_impl.reconnect(ctx, "C09")
+    from harness import c09_impl
+    c09_impl.loopback(ctx)
     model_ok = ok
     if not ok:
         model_ok, _ = ctx.coq_build(["lib/Refs.vo"])
